@@ -261,8 +261,9 @@ Proof. intros E1 E2 H n x. unfold owned_covers in H. rewrite E1, E2. apply H. Qe
 Lemma dispatch_covers k c a m : owned_covers k -> owned_covers (fst (fst (mini_dispatch k c a m))).
 Proof.
   intros Hcov. unfold mini_dispatch.
+  match goal with |- context [if ?b then (k, [(MON, Self _ _)], VNone) else _] => destruct b; [exact Hcov|] end.
   destruct (mem c (m_mons k)); [exact Hcov|].
-  destruct (str_field m DBUS_HEADER_FIELD_DESTINATION) as [d|]; [|destruct (msg_type m =? _); exact Hcov].
+  destruct (str_field m DBUS_HEADER_FIELD_DESTINATION) as [d|]; [|destruct (msg_type m =? _); [exact Hcov|destruct (msg_type m =? _); exact Hcov]].
   destruct (bytes_eqb d DBUS_SERVICE_DBUS_str).
   - destruct a.
     + destruct (is_request_name m).
@@ -355,9 +356,10 @@ Theorem activation_success_only_to_connected k c a m w s :
   In (MON, ActOk w s) (snd (fst (mini_dispatch k c a m))) -> In w (m_completed k).
 Proof.
   unfold mini_dispatch.
+  match goal with |- context [if ?b then (k, [(MON, Self _ _)], VNone) else _] => destruct b; [cbn [fst snd]; intros [H|[]]; discriminate|] end.
   destruct (mem c (m_mons k)); [intros []|].
   destruct (str_field m DBUS_HEADER_FIELD_DESTINATION) as [d|].
-  2:{ destruct (msg_type m =? _); cbn [fst snd]; [intros [H|[]]; discriminate|intros []]. }
+  2:{ destruct (msg_type m =? _); cbn [fst snd]; [intros [H|[]]; discriminate|]. destruct (msg_type m =? _); cbn [fst snd]; [intros [H|[]]; discriminate|intros []]. }
   destruct (bytes_eqb d DBUS_SERVICE_DBUS_str).
   - destruct a.
     + destruct (is_request_name m).
